@@ -51,6 +51,9 @@ def run(ctx) -> None:
     from . import c02
 
     ctx.reuse("C05.mix-args", c02.ctor)
+    from . import c20 as _c20
+
+    ctx.reuse("C05.mix-args", _c20.guard_table)
     ctx.reuse("C05.mix-args", c02.alias)
     # conservation: what is booked is what was asked for - a split volume adds up to the request, an overfull well is refused
     # (not clipped while the fractions are mixed with the full amount)
@@ -248,6 +251,15 @@ def local_write(ctx) -> None:
                           f"fraction is written at `{show(idx)[:60]}`, not at the index of the well that received the liquid", where=w)
             if isinstance(node.ast, ast.AugAssign):
                 ctx.rep.refuted(rule, c + "/assign", "fractions must be replaced by the mixed value, not accumulated", where=w)
+            # every item of the mixed composition is written: a component whose fraction became 0 (or any other filtered item)
+            # would keep the stale fraction of the liquid that was in the well before
+            loops_ = fv.cfg.enclosing_loops(node.id)
+            if loops_:
+                inner_body = fv.cfg.loop_body[loops_[-1]]
+                conds = [(r_, p_) for r_, p_, _b in fv.atoms_at(node.id, within=inner_body, skip_raising=True)]
+                ctx.rep.check(not conds, rule, c + "/every-item", "every item of the mixed composition is written back",
+                              f"the write-back of an item is skipped {'unless' if conds and conds[0][1] else 'when'} `{show(conds[0][0])[:50] if conds else ''}`: the well keeps the stale fraction of a "
+                              "component that the mixture no longer contains (fractions then sum to more than 1)", where=w)
             # value and key come from the same items() iteration over the combined composition
             kterm = fv.res.resolve(t.value.slice, node.id)
             vterm = fv.res.resolve(node.ast.value, node.id)
@@ -406,7 +418,7 @@ def _check_accumulator(ctx, rule, fv, f, rn) -> None:
                   "the accumulator is not initialised with fraction * volume_A for every component of liquid A", where=f.where())
     ok_b = False
     for n in fv.cfg.nodes:
-        if n.kind == "stmt" and isinstance(n.ast, ast.AugAssign) and isinstance(n.ast.op, ast.Add) and isinstance(n.ast.target, ast.Subscript) and acc and is_name(n.ast.target.value, acc):
+        if n.kind == "stmt" and isinstance(n.ast, ast.AugAssign) and isinstance(n.ast.op, ast.Add) and isinstance(n.ast.target, ast.Subscript) and acc and (is_name(n.ast.target.value, acc) or is_name(fv.alias_root(n.ast.target.value, n.id), acc)):
             loops = [h for h in fv.cfg.enclosing_loops(n.id) if fv.cfg.nodes[h].kind == "for"]
             if not loops:
                 continue
